@@ -180,6 +180,52 @@ where
            "back": en(&back.color.arr()), "back_alpha": back.alpha.ex(), "back_plain": en(&back_plain.arr()), "back_opaque": en(&back_opaque.arr())})
 }
 
+// ---- colours with integer components: the bounds are 0 and the largest value of the type, every value is inside them
+macro_rules! int_bounds {
+    ($fname:ident, $U:ty, $C:ty, $n:expr, |$v:ident| $make:expr, |$c:ident| $comps:expr, [$($min:ident / $max:ident),*]) => {
+        fn $fname(name: &str, input: &[u64], alpha: bool) -> Value {
+            let $v: Vec<$U> = input.iter().map(|&x| x as $U).collect();
+            let a: $C = $make;
+            let get = |$c: &$C| -> Vec<$U> { $comps };
+            let lo: Vec<Value> = vec![$(<$C>::$min().ex()),*];
+            let hi: Vec<Value> = vec![$(<$C>::$max().ex()),*];
+            let mut e = json!({"ev": "bounds", "t": stringify!($U), "node": name, "alpha": alpha as u8, "in": ex_arr(&get(&a)), "lo": lo, "hi": hi});
+            let r = catch(|| {
+                let c = a.clamp();
+                let c2 = c.clamp();
+                let mut ca = a;
+                ca.clamp_assign();
+                let mut sl = [a, a, a];
+                sl[..].clamp_assign();
+                json!({"clamp": ex_arr(&get(&c)), "clamp2": ex_arr(&get(&c2)), "clamp_assign": ex_arr(&get(&ca)), "slice": ex_arr(&get(&sl[1])),
+                       "within_in": a.is_within_bounds() as u8, "within_out": c.is_within_bounds() as u8, "within_out_assign": ca.is_within_bounds() as u8})
+            });
+            match r {
+                Ok(o) => { for (k, val) in o.as_object().unwrap() { e[k] = val.clone(); } e["panic"] = json!(0); }
+                Err(_) => { e["panic"] = json!(1); }
+            }
+            let _ = $n;
+            e
+        }
+    };
+}
+int_bounds!(ib_srgb_u8, u8, Srgb<u8>, 3, |v| Srgb::new(v[0], v[1], v[2]), |c| vec![c.red, c.green, c.blue], [min_red / max_red, min_green / max_green, min_blue / max_blue]);
+int_bounds!(ib_srgb_u16, u16, Srgb<u16>, 3, |v| Srgb::new(v[0], v[1], v[2]), |c| vec![c.red, c.green, c.blue], [min_red / max_red, min_green / max_green, min_blue / max_blue]);
+int_bounds!(ib_linsrgb_u32, u32, LinSrgb<u32>, 3, |v| LinSrgb::new(v[0], v[1], v[2]), |c| vec![c.red, c.green, c.blue], [min_red / max_red, min_green / max_green, min_blue / max_blue]);
+int_bounds!(ib_luma_u8, u8, SrgbLuma<u8>, 1, |v| SrgbLuma::new(v[0]), |c| vec![c.luma], [min_luma / max_luma]);
+int_bounds!(ib_luma_u16, u16, LinLuma<D65, u16>, 1, |v| LinLuma::new(v[0]), |c| vec![c.luma], [min_luma / max_luma]);
+pub const INT_NODES: [&str; 5] = ["srgb_u8", "srgb_u16", "linsrgb_u32", "srgbluma_u8", "linluma_u16"];
+fn int_bounds_op(name: &str, input: &[u64]) -> Value {
+    match name {
+        "srgb_u8" => ib_srgb_u8(name, input, false),
+        "srgb_u16" => ib_srgb_u16(name, input, false),
+        "linsrgb_u32" => ib_linsrgb_u32(name, input, false),
+        "srgbluma_u8" => ib_luma_u8(name, input, false),
+        "linluma_u16" => ib_luma_u16(name, input, false),
+        _ => { eprintln!("unknown integer node {}", name); std::process::exit(3) }
+    }
+}
+
 #[derive(Clone, Copy)]
 pub struct Out { pub v: V, pub ok: bool }
 pub type ConvFn = fn(&V, u8) -> Out;
@@ -420,6 +466,12 @@ pub fn convmain() {
                     Ok(o) => { for (k, val) in o.as_object().unwrap() { e[k] = val.clone(); } e["panic"] = json!(0); }
                     Err(_) => { e["panic"] = json!(1); }
                 }
+                rec.ev(e);
+            }
+            "ibounds" => {
+                let input: Vec<u64> = c["iin"].as_array().unwrap().iter().map(|x| x.as_u64().expect("integer component")).collect();
+                let mut e = int_bounds_op(c["node"].as_str().unwrap(), &input);
+                e["id"] = c["id"].clone();
                 rec.ev(e);
             }
             "user" => {
